@@ -8,6 +8,7 @@ Not a template.  The bodies of
   breakpad-symbols/src/sym_file/parser.rs  the Line::Function arm of SymbolParser::finish_item (line filter, the closure building each line's
                                            range, into_rangemap_safe, inlinees.retain / sort, memory_range, self.functions.push);
                                            insert_win_stack_info (the overlap repair of STACK WIN records: `last_mut()` borrows, `as u32`, `unwrap`)
+  breakpad-symbols/src/lib.rs              Symbolizer::fill_symbol;   minidump-unwind/src/lib.rs   fill_source_line_info
 are tokenised, parsed (a small Rust subset: let / if / if let / match / for x in n.. / return / break / assignment /
 closures / method chains / tuples / ? / as / & / comparison and + -) and compiled, statement by statement, into Gallina
 over the vocabulary of coq/C11/Prims.v:
@@ -366,6 +367,10 @@ class P:
             while self.at("::"):
                 self.next()
                 path.append(self.next()[1])
+            if len(path) == 1 and v[0].isupper() and self.at("{") and self.at("}", 1):
+                self.next()
+                self.next()
+                return ("unitstruct", v)
             if len(path) == 1 and not self.at("("):
                 return ("var", v)
             return ("path", path)
@@ -474,6 +479,14 @@ def coq_type(t):
         return "bool"
     if t == "frame":
         return "sym_out"
+    if t == "sframe":
+        return "sframe"
+    if t == "mmod":
+        return "Z * module"
+    if t == "modlist":
+        return "modlist"
+    if t == "unit":
+        return "unit"
     if t == "range":
         return "range"
     if t == "bres":
@@ -481,7 +494,7 @@ def coq_type(t):
     if isinstance(t, tuple):
         if t[0] == "S":
             return COQREC[t[1]]
-        if t[0] in ("vec", "rm", "opt") and coq_type(t[1]) is None:
+        if t[0] in ("vec", "rm", "opt", "res") and coq_type(t[1]) is None:
             return None
         if t[0] == "tup" and any(coq_type(x) is None for x in t[1]):
             return None
@@ -491,7 +504,7 @@ def coq_type(t):
             return "list (range * %s)" % coq_type(t[1])
         if t[0] == "hm":
             return "list (Z * Z)"
-        if t[0] == "opt":
+        if t[0] in ("opt", "res"):
             return "option " + par(coq_type(t[1]))
         if t[0] == "tup":
             return " * ".join(par(coq_type(x)) for x in t[1])
@@ -558,11 +571,16 @@ class Gen:
 
     # ---- function ends
     def ret_value(self, text):
+        if self.ret == "res":
+            # the value is `Ok(())` (checked where it is built): the function's result is (ok?, its mutable outputs)
+            return "".join(reversed(self.writeback)) + "Ret (%s, %s)" % (text, self.out)
         return "Ret %s" % par(text)
 
     def ret_none(self):
         if self.ret == "unit":
             self.fail("`?` in a function that returns ()")
+        if self.ret == "res":
+            return "".join(reversed(self.writeback)) + "Ret (false, %s)" % self.out     # Err(..): the error carries nothing the model needs
         return "Ret None"
 
     def end_unit(self):
@@ -757,8 +775,14 @@ class Gen:
                     return k.fn("(wrap32 %s)" % text, "u32")       # `as u32` truncates
                 self.fail("cast from %r to %s is outside the subset" % (t, e[2]))
             return self.expr(e[1], env, K(c, k.tail))
+        if kind == "field" and e[2] == "await":
+            return self.expr(e[1], env, k)            # the future is driven to completion: sequential reading
+        if kind == "unitstruct":
+            return k.fn("tt", ("unitstruct", e[1]))
         if kind == "field":
             def f(text, t):
+                if t == "sframe" and e[2] == "instruction":
+                    return k.fn("(sf_instr %s)" % text, "u64")
                 if isinstance(t, tuple) and t[0] == "S" and t[1] in PROJ and e[2] in PROJ[t[1]]:
                     return k.fn("(%s %s)" % (PROJ[t[1]][e[2]], text), STRUCTS[t[1]][e[2]])
                 if t == "range" and e[2] in ("start", "end"):
@@ -820,7 +844,9 @@ class Gen:
             return self.scoped(lambda: self.block(e[1], dict(env), k))
         if kind == "try":
             def tr(text, t):
-                if not (isinstance(t, tuple) and t[0] == "opt"):
+                if isinstance(t, tuple) and t[0] == "res" and self.ret != "res":
+                    self.fail("`?` on a Result in a function that does not return one")
+                if not (isinstance(t, tuple) and t[0] in ("opt", "res")):
                     self.fail("`?` on %r" % (t,))
                 x = self.fresh("x")
                 return "match %s with\n| Some %s => %s\n| None => %s\nend" % (text, x, k.fn(x, t[1]), self.ret_none())
@@ -844,6 +870,12 @@ class Gen:
             if n not in env or env[n][0] not in [g for _, g, _ in self.muts]:
                 self.fail("assignment to a field of something that is not a `mut` variable")
             g, t = env[n]
+            if t == "sframe" and fld == "module":
+                def fm(text, vt):
+                    if not same_type(vt, ("opt", "mmod")):
+                        self.fail("frame.module assigned a value of type %r" % (vt,))
+                    return "let %s := sf_set_module %s %s in\n%s" % (g, g, par(text), k.fn("tt", "unit"))
+                return self.expr(e[2], env, K(fm, k.tail))
             if not (isinstance(t, tuple) and t[0] == "S" and (t[1], fld) in SETTER):
                 self.fail("assignment to field `.%s` of %r is not part of the model" % (fld, t))
 
@@ -859,6 +891,8 @@ class Gen:
             return self.expr(e[2], env, K(lambda text, t: "let %s := %s in\n%s" % (g, text, k.fn("tt", "unit")), k.tail))
         if kind == "call":
             path, args = e[1], e[2]
+            if path == ["Ok"] and args == [("tuple", [])] and self.ret == "res":
+                return k.fn("true", ("res", "unit"))
             if path == ["Some"] and len(args) == 1:
                 return self.expr(args[0], env, K(lambda text, t: k.fn("(Some %s)" % par(text), ("opt", t)), k.tail))
             if path == ["Range", "new"] and len(args) == 2:
@@ -1014,6 +1048,27 @@ class Gen:
                 return self.exprs(args, env, cb)
             self.fail("frame.%s is not a callback the model records" % m)
 
+        if recv[0] == "field" and recv[2] == "inlines" and recv[1][0] == "var" and env.get(recv[1][1], ("", ""))[1] == "sframe" \
+                and m == "reverse" and not args:
+            g = env[recv[1][1]][0]
+            if g not in [x for _, x, _ in self.muts]:
+                self.fail("frame.inlines.reverse() on a frame that is not `&mut`")
+            return "let %s := sf_reverse_inlines %s in\n%s" % (g, g, k.fn("tt", "unit"))
+        if recv[0] == "var" and env.get(recv[1], ("", ""))[1] == "provider" and m == "fill_symbol" and len(args) == 2:
+            # P: SymbolProvider is instantiated at the Symbolizer (what walk_stack is given in the harness)
+            def pf(vs):
+                (mo, mt), (fr, ft) = vs
+                if mt != "mmod" or ft != "sframe" or fr not in [x for _, x, _ in self.muts]:
+                    self.fail("symbol_provider.fill_symbol called with %r, %r" % (mt, ft))
+                x = self.fresh("x")
+                self.uses_fuel = True
+                return "do %s <- src_symbolizer_fill_symbol p fuel %s %s;\nlet %s := snd %s in\n%s" % (x, mo, fr, fr, x, k.fn("(fst %s)" % x, ("res", "unit")))
+            return self.exprs(args, env, pf)
+        if recv == ("var", "self") and env.get("self", ("", ""))[1] == "symbolizer" and m == "get_symbols" and len(args) == 1:
+            a, at = self.need_pure(args[0], env, "the argument of get_symbols")
+            if at != "mmod":
+                self.fail("get_symbols of %r" % (at,))
+            return k.fn("(get_symbols %s)" % a, ("res", ("S", "SymbolFile")))
         if recv == ("field", ("var", "self"), "functions") and m == "push" and len(args) == 1 and "\0functions" in env:
             g, ft = env["\0functions"]
             return self.expr(args[0], env, K(lambda a, at: (
@@ -1044,6 +1099,28 @@ class Gen:
                 if at != "u32":
                     self.fail("HashMap::get with a key of type %r" % (at,))
                 return k.fn("(assoc_last %s %s)" % (a, text), ("opt", "name"))
+            if t == "modlist" and m == "module_at_address" and len(args) == 1:
+                a, at = self.need_pure(args[0], env, "the argument of module_at_address")
+                if at != "u64":
+                    self.fail("module_at_address of %r" % (at,))
+                x = self.fresh("x")
+                return "do %s <- module_at %s %s;\n%s" % (x, text, a, k.fn(x, ("opt", "mmod")))
+            if t == "mmod" and m == "clone" and not args:
+                return k.fn(text, t)
+            if tk == "res" and m == "as_ref" and not args:
+                return k.fn(text, t)
+            if tk == "res" and m == "map_err" and len(args) == 1 and args[0][0] == "closure":
+                return k.fn(text, t)        # only the error payload changes, which the model does not carry
+            if tk == "S" and t[1] == "SymbolFile" and m == "fill_symbol" and len(args) == 2:
+                def sf(vs):
+                    (mo, mt), (fr, ft) = vs
+                    if mt != "mmod" or ft != "sframe" or fr not in [x for _, x, _ in self.muts]:
+                        self.fail("SymbolFile::fill_symbol called with %r, %r" % (mt, ft))
+                    x = self.fresh("x")
+                    self.uses_fuel = True
+                    return "do %s <- src_fill_symbol p fuel %s (mod_base %s) (sf_instr %s);\nlet %s := sf_apply %s %s in\n%s" % (
+                        x, text, mo, fr, fr, fr, x, k.fn("tt", "unit"))
+                return self.exprs(args, env, sf)
             if t == "range" and m == "intersects" and len(args) == 1:
                 a, at = self.need_pure(args[0], env, "the argument of intersects")
                 if at != "range":
@@ -1247,10 +1324,12 @@ def compile_fn(name, what, src, head_re, selfty, params, ret, rett, sigs, want_s
     env = {}
     if selfty in COQREC:
         g.bind(env, "self", ("S", selfty))
-    else:
+    elif selfty is not None:
         env["self"] = ("v_self", ("S", selfty))
     for n, t in params:
         g.bind(env, n, t, mut=(t == "frame" or n in mut_params))
+    if selfty == "Symbolizer":
+        env["self"] = ("v_self", "symbolizer")
     if outputs:
         g.out = outputs
     if ret == "unit":
@@ -1259,13 +1338,15 @@ def compile_fn(name, what, src, head_re, selfty, params, ret, rett, sigs, want_s
         k = K(lambda text, t: g.ret_value(text), True)
     txt = g.block(body, env, k)
     plist = ([("v_self", COQREC[selfty])] if selfty in COQREC else []) + \
-        [(env[n][0] if n in env else "v_" + n.strip("\0"), coq_type(t)) for n, t in params if t not in ("module", "frame")]
+        [(env[n][0] if n in env else "v_" + n.strip("\0"), coq_type(t)) for n, t in params if t not in ("module", "frame", "provider")]
     extra = ""
-    if "frame" in env:
+    cb_frame = env.get("frame", ("", ""))[1] == "frame"
+    if cb_frame:
         extra = " (mbase instr : Z)"
     head = "Definition src_%s (p : profile)%s %s%s\n  : outcome %s :=\n" % (
-        name, " (fuel : nat)" if g.uses_fuel else "", " ".join("(%s : %s)" % x for x in plist), extra, par(coq_type(rett)) if rett != "frame" else "sym_out")
-    if "frame" in env:
+        name, " (fuel : nat)" if g.uses_fuel else "", " ".join("(%s : %s)" % x for x in plist), extra,
+        rett[4:] if isinstance(rett, str) and rett.startswith("coq:") else (par(coq_type(rett)) if rett != "frame" else "sym_out"))
+    if cb_frame:
         txt = "let v_frame := empty_out in\n" + txt
     return "".join(a.replace("\n", "\n") for a in [indent_aux(x) for x in g.aux]) + head + indent(txt) + ".\n"
 
@@ -1309,6 +1390,15 @@ FALLBACK = {
     "insert_win_stack_info": "Definition src_insert_win_stack_info (p : profile) (v_stack_win : list (range * win_rec)) (v_info : win_rec)\n"
                              "    : outcome (list (range * win_rec)) :=\n"
                              "  do acc <- win_insert (rev v_stack_win) v_info; Ret (rev acc).\n",
+    "symbolizer_fill_symbol": "Definition src_symbolizer_fill_symbol (p : profile) (fuel : nat) (v_module : Z * module) (v_frame : sframe) : outcome (bool * sframe) :=\n"
+                              "  match get_symbols v_module with\n"
+                              "  | Some st => do o <- src_fill_symbol p fuel st (mod_base v_module) (sf_instr v_frame); Ret (true, sf_apply v_frame o)\n"
+                              "  | None => Ret (false, v_frame)\n  end.\n",
+    "fill_source_line_info": "Definition src_fill_source_line_info (p : profile) (fuel : nat) (v_frame : sframe) (v_modules : modlist) : outcome sframe :=\n"
+                             "  do x <- module_at v_modules (sf_instr v_frame);\n"
+                             "  match x with\n"
+                             "  | Some m => do r <- src_symbolizer_fill_symbol p fuel m (sf_set_module v_frame (Some m)); Ret (sf_reverse_inlines (snd r))\n"
+                             "  | None => Ret v_frame\n  end.\n",
     "finish_function": "Definition src_finish_function (p : profile) (v_functions : list (range * func)) (v_cur : func) (v_lines : list line_rec)\n"
                        "    (v_inlinees : list inl_rec) : outcome (list (range * func)) :=\n"
                        "  do r <- finish_func (mk_fraw (fn_addr v_cur) (fn_size v_cur) (fn_psize v_cur) (fn_name v_cur) v_lines v_inlinees);\n"
@@ -1415,10 +1505,27 @@ def win_insert():
 
 attempt("insert_win_stack_info", win_insert)
 
+# ---- the Symbolizer level: Symbolizer::fill_symbol (breakpad-symbols/src/lib.rs) and fill_source_line_info (minidump-unwind)
+# `frame` is a StackFrame (Prims.sframe: instruction, module, what the FrameSymbolizer callbacks stored), `module` a module of
+# the list with its position (Z * Model.module), `self.get_symbols(module).await` what the cache holds for it (Prims.get_symbols:
+# the module's symbol table or an error; C12 models how it gets there, c11_symbolizer_cached_frame composes the two),
+# `.await` is read sequentially, the generic SymbolProvider is the Symbolizer.
+attempt("symbolizer_fill_symbol", lambda: compile_fn(
+    "symbolizer_fill_symbol", "Symbolizer::fill_symbol (breakpad-symbols/src/lib.rs)", read("breakpad-symbols/src/lib.rs"),
+    r"pub async fn fill_symbol\(", "Symbolizer", [("module", "mmod"), ("frame", "sframe")], "res", "coq:(bool * sframe)", SIGS,
+    "pub async fn fill_symbol( &self, module: &(dyn Module + Sync), frame: &mut (dyn FrameSymbolizer + Send), ) -> Result<(), FillSymbolError>",
+    mut_params=("frame",), outputs="v_frame"))
+attempt("fill_source_line_info", lambda: compile_fn(
+    "fill_source_line_info", "fill_source_line_info (minidump-unwind/src/lib.rs)", read("minidump-unwind/src/lib.rs"),
+    r"async fn fill_source_line_info<P>\(", None, [("frame", "sframe"), ("modules", "modlist"), ("symbol_provider", "provider")], "unit", "sframe", SIGS,
+    "async fn fill_source_line_info<P>( frame: &mut StackFrame, modules: &MinidumpModuleList, symbol_provider: &P, ) where P: SymbolProvider + Sync,",
+    mut_params=("frame",), outputs="v_frame"))
+
 out = """(* GENERATED by translate/c11_compile.py from breakpad-symbols/src/sym_file/{types,mod}.rs - do not edit.
    The bodies of Function::{memory_range, get_inlinee_at_depth, get_outermost_sourceloc, get_innermost_sourceloc},
    StackInfoWin::memory_range, SymbolFile::{find_nearest_public, fill_symbol}, the Line::Function arm of
-   SymbolParser::finish_item and insert_win_stack_info (parser.rs), compiled statement by statement into Gallina over the
+   SymbolParser::finish_item and insert_win_stack_info (parser.rs), Symbolizer::fill_symbol (breakpad-symbols/src/lib.rs) and
+   fill_source_line_info (minidump-unwind/src/lib.rs), compiled statement by statement into Gallina over the
    vocabulary of C11/Prims.v.  C11/SrcTie.v proves them equal to the hand-written model C11/Model.v. *)
 From RM Require Import Base.Word C08.Model C11.Model C11.Prims.
 Open Scope Z_scope.
